@@ -18,7 +18,14 @@ INPUT_SETS = {
 
 INVARIANTS = ["AgeTableSubsetOfCache", "FrozenNeverEvicted", "FrozenNeverAltered", "PolicyRefinement",
               "CacheNeverWritten", "NoReentrancy", "NoUnexplored", "StackBounded"]
-PROPERTIES = ["OnlyWholeUnfrozenEntries", "CountMonotone", "NoInPlaceWrite"]
+PROPERTIES = ["OnlyWholeUnfrozenEntries", "CountMonotone", "NoInPlaceWrite", "LoadKeepsFrozen"]
+
+
+def load_keys(pres):
+    """The dictionary a mid-history load_data() call hands over: the inputs except every third one
+    (so that some frozen inputs are NOT part of the loaded dictionary and must survive the call)."""
+    ks = sorted(INPUT_SETS[pres])
+    return [k for i, k in enumerate(ks) if i % 3 != 0]
 
 
 def q(s):
@@ -47,12 +54,12 @@ def cfg_text(consts, invariants=INVARIANTS, properties=PROPERTIES, spec="Spec", 
 def run_model(graph, inputs, requests, max_requests, clear_every, mem_tiny=False, policy="code",
               freeze=True, invariants=INVARIANTS, properties=PROPERTIES, emit=True, max_stack=40,
               simulate=None, depth=None, seed=None, workers=None, timeout=3000, spec="Spec",
-              coverage=False, graph_module=None, extra_defs=None, extra_cfg="", constraint=None, allow_freeze=False):
+              coverage=False, graph_module=None, extra_defs=None, extra_cfg="", constraint=None, allow_freeze=False, load=None):
     gtext = graph_module or X.to_tla(graph, "CoreGraph")
     defs = {
         "Keys": "GKeys", "Helpers": "GHelpers", "Prog": "GProg", "Start": "GStart",
         "Size": "GSize", "Imp": "GImp", "MutKeys": "GMut",
-        "Inputs": tset(inputs), "Requests": tset(requests),
+        "Inputs": tset(inputs), "Requests": tset(requests), "LoadKeys": tset(load or []),
     }
     defs.update(extra_defs or {})
     name, text, cl = wrapper("AurelCache", defs, extends_extra=", CoreGraph")
@@ -89,7 +96,14 @@ if __name__ == "__main__":
 
 
 TRACE_INVARIANTS = ["AgeTableSubsetOfCache", "FrozenNeverEvicted", "FrozenNeverAltered", "CacheNeverWritten"]
-TRACE_PROPERTIES = ["OnlyWholeUnfrozenEntries", "CountMonotone", "NoInPlaceWrite"]
+TRACE_PROPERTIES = ["OnlyWholeUnfrozenEntries", "CountMonotone", "NoInPlaceWrite", "LoadKeepsFrozen"]
+
+
+def load_keys(pres):
+    """The dictionary a mid-history load_data() call hands over: the inputs except every third one
+    (so that some frozen inputs are NOT part of the loaded dictionary and must survive the call)."""
+    ks = sorted(INPUT_SETS[pres])
+    return [k for i, k in enumerate(ks) if i % 3 != 0]
 
 
 def validate_traces(graph, inputs, freeze, traces, timeout=3000, graph_text=None):
@@ -101,7 +115,7 @@ def validate_traces(graph, inputs, freeze, traces, timeout=3000, graph_text=None
     gtext = graph_text or X.to_tla(graph, "CoreGraph")
     allreq = graph["keys"] + graph["helpers"]
     defs = {"Keys": "GKeys", "Helpers": "GHelpers", "Prog": "GProg", "Start": "GStart", "Size": "GSize",
-            "Imp": "GImp", "MutKeys": "GMut", "Inputs": tset(inputs), "Requests": tset(allreq)}
+            "Imp": "GImp", "MutKeys": "GMut", "Inputs": tset(inputs), "Requests": tset(allreq), "LoadKeys": "{}"}
     name, text, cl = wrapper("TraceCache", defs, extends_extra=", CoreGraph")
     text = text.replace("====", "ASSUME RegInit\n====")
     consts = cl + f"""
